@@ -1174,3 +1174,7 @@ mod tests {
         assert_eq!(expected_result, result);
     }
 }
+
+#[cfg(maidsafe_safe_network_verif)]
+#[path = "verif/node.rs"]
+pub mod verif;
